@@ -36,6 +36,9 @@ type Case struct {
 	Doc   vgen.Doc `json:"doc"`
 	Atts  []Att    `json:"attachments,omitempty"`
 	Width int      `json:"width"`
+	// Summary > 0 (posts): the post also has a summary (an abstract / content warning) that contains a link with this
+	// label id. The pinned tree does not show a post's summary; a tree that does must number that link like any other.
+	Summary int `json:"summary,omitempty"`
 }
 
 func build(c Case) (pub.Tangible, error) {
@@ -50,6 +53,9 @@ func build(c Case) (pub.Tangible, error) {
 	o["type"] = "Note"
 	o["content"] = c.Doc.Content
 	o["mediaType"] = c.Doc.MediaType
+	if c.Summary > 0 {
+		o["summary"] = summaryText(c)
+	}
 	if len(c.Atts) > 0 {
 		list := []any{}
 		for _, a := range c.Atts {
@@ -163,6 +169,20 @@ func bind(rendered string) (map[int]int, error) {
 	return bound, nil
 }
 
+// summaryText: a summary in the body's own markup that contains one labelled link
+func summaryText(c Case) string {
+	label, target := vgen.Label(c.Summary), vgen.Target(c.Summary)
+	switch c.Doc.MediaType {
+	case "text/html":
+		return `<p>abstract <a href="` + target + `">` + label + `</a></p>`
+	case "text/markdown":
+		return "abstract [" + label + "](" + target + ")"
+	case "text/gemini":
+		return "abstract\n=> " + target + " " + label
+	}
+	return "abstract " + target
+}
+
 const anonymous = -1
 
 func labelOf(id int) string {
@@ -212,6 +232,28 @@ func check(c Case) vrep.Result {
 	bound, err := bind(rendered)
 	if err != nil {
 		return vrep.Result{Classes: classes, Err: fmt.Errorf("%v\nwidth %d, rendering:\n%s", err, c.Width, plainOf(rendered))}
+	}
+	if c.Summary > 0 {
+		classes = append(classes, "post-with-summary-link")
+		targets[c.Summary] = vgen.Target(c.Summary)
+		for k, id := range bound {
+			if id == c.Summary {
+				// the summary is shown: its link is one of the numbered links
+				classes = append(classes, "summary-shown")
+				N++
+				if k != 1 && k != N {
+					return vrep.Result{Classes: classes, Err: fmt.Errorf("the summary's link is shown as number %d among %d links\nrendering:\n%s", k, N, plainOf(rendered))}
+				}
+				if k == 1 {
+					// everything else moves up by one
+					shifted := map[int]Att{}
+					for pos, a := range brokenAt {
+						shifted[pos+1] = a
+					}
+					brokenAt = shifted
+				}
+			}
+		}
 	}
 	if len(bound) != N {
 		return vrep.Result{Classes: classes, Err: fmt.Errorf("%d numbers shown for %d links\nrendering:\n%s", len(bound), N, plainOf(rendered))}
@@ -378,6 +420,10 @@ func gen(t *rapid.T) Case {
 				c.Atts[len(c.Atts)-1].Broken = rapid.SampledFrom([]string{"no-url-no-name", "name-not-a-string", "not-a-link"}).Draw(t, "brokenkind")
 			}
 		}
+	}
+	if c.Kind == "post" && rapid.SampledFrom([]int{0, 0, 0, 0, 1}).Draw(t, "summary") == 1 {
+		next++
+		c.Summary = next
 	}
 	if next >= 10 {
 		// a two-digit number broken by wrapping would read as two numbers: keep such documents wide
